@@ -234,14 +234,17 @@ func (h *c01HTTP) Do(req *http.Request) (*http.Response, error) {
 }
 
 type c01Nodes struct {
-	vdb    *gorm.DB
-	http   *c01HTTP
-	w      *c01World
-	ver    verifier.Verifier
-	vTrust *trust.Config
-	iss    issuer.Issuer
-	pub    *c01Publisher
-	wallet holder.Wallet
+	vstore     verifier.Store
+	kr         resolver.KeyResolver
+	vTrustFile string
+	vdb        *gorm.DB
+	http       *c01HTTP
+	w          *c01World
+	ver        verifier.Verifier
+	vTrust     *trust.Config
+	iss        issuer.Issuer
+	pub        *c01Publisher
+	wallet     holder.Wallet
 }
 
 // ---------------------------------------------------------------- output
@@ -1260,7 +1263,8 @@ func newC01Nodes(t *testing.T) *c01Nodes {
 	}
 	iver := verifier.NewVerifier(ivstore, w, kr, w.ldm, iTrust, revocation.NewStatusList2021(idb, nil, ""))
 	wallet := holder.NewSQLWallet(kr, w.ks, iver, w.ldm, iEng)
-	n := &c01Nodes{w: w, ver: ver, vTrust: vTrust, iss: iss, pub: pub, wallet: wallet, http: httpStub, vdb: vEng.GetSQLDatabase()}
+	n := &c01Nodes{w: w, ver: ver, vTrust: vTrust, iss: iss, pub: pub, wallet: wallet, http: httpStub, vdb: vEng.GetSQLDatabase(),
+		vstore: vstore, kr: kr, vTrustFile: path.Join(dir, "vtrust.yaml")}
 	httpStub.n = n
 	return n
 }
@@ -1280,6 +1284,100 @@ func (n *c01Nodes) setTrust(o *c01Out, typ, iss string, add bool) {
 		n.w.t.Fatal(err)
 	}
 	o.emit(map[string]any{"op": "trust", "type": typ, "issuer": iss, "add": add}, "trust")
+}
+
+// restartVerifier: the verifier node starts again — a fresh trust.Config loaded from the trust file, a new verifier on the same stores
+func (n *c01Nodes) restartVerifier(o *c01Out) {
+	tc := trust.NewConfig(n.vTrustFile)
+	if err := tc.Load(); err != nil {
+		n.w.t.Fatal(err)
+	}
+	n.vTrust = tc
+	n.ver = verifier.NewVerifier(n.vstore, n.w, n.kr, n.w.ldm, tc, revocation.NewStatusList2021(n.vdb, n.http, ""))
+	o.emit(map[string]any{"op": "restart"}, "restart")
+}
+
+// trustFile: an operator replaces the trust file by a hand-written one (duplicates, any order) and the node starts with it
+func (n *c01Nodes) trustFile(o *c01Out, content [][]string) { // rows: type, issuer...
+	var sb strings.Builder
+	m := map[string][]string{}
+	for _, row := range content {
+		sb.WriteString(strconv.Quote(row[0]) + ":\n")
+		for _, iss := range row[1:] {
+			sb.WriteString("  - " + strconv.Quote(iss) + "\n")
+		}
+		m[row[0]] = row[1:]
+	}
+	if err := os.WriteFile(n.vTrustFile, []byte(sb.String()), 0o644); err != nil {
+		n.w.t.Fatal(err)
+	}
+	tc := trust.NewConfig(n.vTrustFile)
+	if err := tc.Load(); err != nil {
+		n.w.t.Fatal(err)
+	}
+	n.vTrust = tc
+	n.ver = verifier.NewVerifier(n.vstore, n.w, n.kr, n.w.ldm, tc, revocation.NewStatusList2021(n.vdb, n.http, ""))
+	o.emit(map[string]any{"op": "trustfile", "content": m}, "trustfile")
+}
+
+// trustScenario: hand-edited trust files (the same issuer listed more than once, other issuers in between, the issuer under
+// several types), then RemoveTrust / AddTrust, Verify with trust required on the running node and after a restart.
+func (n *c01Nodes) trustScenario(o *c01Out, rnd *rand.Rand, bases []c01Base, thorough bool) {
+	at := c01T0 + 130
+	org, human := "NutsOrganizationCredential", "HumanCredential"
+	var docs []c01Base
+	for _, b := range bases {
+		if strings.HasPrefix(b.label, "org:") || strings.HasPrefix(b.label, "human:") || b.label == "vp-ld[org-ld]" || b.label == "vp-jwt[org-ld,plain-jwt]" {
+			docs = append(docs, b)
+		}
+	}
+	step := 0
+	verifyAll := func(tag string) {
+		step++
+		for _, b := range docs {
+			for _, au := range []bool{false, true} {
+				n.run(o, c01Call{kind: b.kind, text: b.text, at: &at, allowUntrusted: au, checkSig: true, label: b.label + "@trustfile" + strconv.Itoa(step) + ":" + tag, base: b.label, mut: "trust", path: tag})
+			}
+		}
+	}
+	files := [][][]string{
+		{{org, didI, didO, didI}, {human, didI}},
+		{{org, didI, didI}, {human, didI, didI}},
+		{{org, didI}, {human, didO, didI, didJ, didI, didI}, {"NutsAuthorizationCredential", didO, didI}},
+		{{human, didI}, {org, didO, didI, didJ, didI, didI}},
+		{{org, didI, didO}, {human, didI}}, // no duplicates
+	}
+	if thorough {
+		for k := 0; k < 12; k++ {
+			var rows [][]string
+			for _, t := range []string{org, human} {
+				row := []string{t}
+				for j, m := 0, 1+rnd.Intn(6); j < m; j++ {
+					row = append(row, []string{didI, didI, didO, didJ}[rnd.Intn(4)])
+				}
+				rows = append(rows, row)
+			}
+			files = append(files, rows)
+		}
+	}
+	for _, f := range files {
+		n.trustFile(o, f)
+		verifyAll("loaded")
+		n.setTrust(o, org, didI, false)
+		verifyAll("org-untrusted")
+		n.restartVerifier(o)
+		verifyAll("org-untrusted-restarted")
+		n.setTrust(o, human, didI, false)
+		verifyAll("both-untrusted")
+		n.setTrust(o, org, didI, true)
+		n.restartVerifier(o)
+		verifyAll("org-trusted-again")
+		n.setTrust(o, org, didI, false)
+		n.setTrust(o, org, didI, false) // idempotent
+		verifyAll("org-untrusted-again")
+	}
+	// leave the trust the later scenarios expect
+	n.trustFile(o, [][]string{{org, didI}, {human, didI}, {"NutsAuthorizationCredential", didI}})
 }
 
 // revoke: the issuer node builds and signs the revocation (issuer.Revoke), the verifier node checks and stores it (RegisterRevocation)
@@ -1452,6 +1550,8 @@ func (n *c01Nodes) generate(o *c01Out, rnd *rand.Rand, thorough bool) {
 		}
 		n.run(o, c01Call{kind: b.kind, text: b.text, at: &t, allowUntrusted: rnd.Intn(2) == 0, checkSig: rnd.Intn(6) != 0, label: b.label + "@rt", base: b.label, mut: "time", path: strconv.FormatInt(t-c01T0, 10)})
 	}
+	// 2e. hand-edited trust files, untrust, restart
+	n.trustScenario(o, rnd, bases, thorough)
 	// 2d. Issue on accepted and refused templates
 	n.issueScenario(o, rnd)
 	// 3. time / key-history / trust / revocation scan on the unmodified documents
@@ -2054,6 +2154,24 @@ func (n *c01Nodes) replay(o *c01Out, file string, prefix string) {
 			n.setTrust(o, str("type"), str("issuer"), add)
 		case "revoke":
 			n.revoke(o, str("id"))
+		case "restart":
+			n.restartVerifier(o)
+		case "trustfile":
+			var rows [][]string
+			if m, ok := op["content"].(map[string]any); ok {
+				for t, l := range m {
+					row := []string{t}
+					if arr, ok := l.([]any); ok {
+						for _, x := range arr {
+							if sx, ok := x.(string); ok {
+								row = append(row, sx)
+							}
+						}
+					}
+					rows = append(rows, row)
+				}
+			}
+			n.trustFile(o, rows)
 		case "vc", "vp":
 			c := c01Call{kind: str("op"), text: str("text"), label: prefix + str("label"), base: prefix + str("base"), mut: str("mut"), path: str("path")}
 			c.allowUntrusted, _ = op["allowUntrusted"].(bool)
